@@ -76,6 +76,8 @@ def main(argv=None):
         return 1 if out.violation else 0
     if args.replay:
         return driver.replay(mod, args.replay, root)
+    if args.selftest:
+        return driver.selftest(mod, args.tier, args.seed, root)
     return driver.run_check(mod, args.tier, args.seed, root, budget_s=args.budget,
                             workers=args.workers, min_runs=args.min_runs,
                             selftest=args.selftest)
